@@ -71,6 +71,33 @@ func VerifC02_FetchBlock() {
 	verif_Assert(len(st.m) == st.commits && st.commits <= 1, "at most the requested block is written")
 }
 
+// C02 (the store's side): the local store fails to commit once or twice while
+// an honest publisher serves the genuine block. Whatever the fetch then
+// returns, every block in the store hashes to the CID it is stored under (in
+// particular nothing empty or partial is committed in its place), and once the
+// store works again the block is fetched and stored intact.
+func VerifC02_StoreCommitFails() {
+	good := []byte("ok")
+	mh, err := multihash.Sum(good, multihash.SHA2_256, -1)
+	verif_Assume(err == nil)
+	c := cid.NewCidV1([]uint64{cid.Raw, cid.DagCBOR}[verif_Choose("codec", 0, 1)], mh)
+	key := cidlink.Link{Cid: c}.Binary()
+	st := &vStore{m: map[string][]byte{}, failCommits: verif_Choose("failingCommits", 1, 2)}
+	rt := &vRT{fn: func(req *http.Request) (*http.Response, error) { return vResp(200, good), nil }}
+	s := &Syncer{client: &http.Client{Transport: rt}, rootURL: vURL("http://pub.example/ipni/v1/ad"), sync: &Sync{lsys: vLsys(st)}}
+	ferr := s.fetchBlock(context.Background(), c)
+	verif_Reach("fetched")
+	for k, b := range st.m {
+		verif_Assert(k == key && bytes.Equal(b, good), "every block in the store hashes to the CID it is stored under")
+	}
+	if _, ok := st.m[key]; !ok {
+		verif_Assert(ferr != nil, "success implies the block is in the store")
+	}
+	st.failCommits = 0
+	ferr = s.fetchBlock(context.Background(), c)
+	verif_Assert(ferr == nil && bytes.Equal(st.m[key], good), "once the store works again the block is fetched and stored intact")
+}
+
 // C02: a block already in the store is not requested again, and a stored block
 // that does not hash to its CID is not accepted as present (untrusted store).
 func VerifC02_LocalBlock() {
